@@ -1,31 +1,35 @@
-(* Run/C06.v — Sx codec around Model/DiskCache.v for the correspondence check.
+(* Run/C06.v — Sx codec around Model/DiskTree.v (both stores of DiskCache over one tree) for the
+   correspondence check.
    leg disk:
-     case   = ( cap ( (key pid plen elen mtime) ... ) ( thread ... ) ( tid ... ) )
+     case   = ( cap order ( init ... ) ( thread ... ) ( tid ... ) )
+     init   = ( main key pid plen elen mtime )   entry file of the result store at make_key_path key
+            | ( pp   key pid plen elen mtime )   entry file of the nested store at preprocessor/a/b/c/key
+            | ( raw  path pid plen elen mtime )  any other file, path relative to the cache root
+                                                 (leftover temp files at any depth)
      thread = ( put key pid plen elen nchunks fail ) | ( get key )
+            | ( pp_put key pid plen elen nchunks )   | ( pp_get key )
               (fail = 1: the write fails after elen/2 bytes, written in nchunks pieces, and the call abandons)
-     result = ( ( r ... ) ( o ... ) ntmp size ( o ... ) ntmp size )
-   key is the cache key (hex string); the path is make_key_path key.  An initial file whose
-   name starts with '.' is placed in the root under that very name (leftover temp files).
-   The entry stored by `put key pid plen elen` is elen bytes, all equal to pid (the real
-   entry is a zip of elen bytes around a payload determined by (pid, plen)); a lookup is
-   reported as ( hit pid ) when it returns exactly such an entry declared for that key. *)
+     order  = 0: the observations look up the result store first, 1: the nested store first
+     result = ( ( r ... ) OBS OBS )    first OBS through the live cache after the schedule, second through
+                                       a fresh DiskCache on the directory (the server died and was restarted)
+     OBS    = ( main-lookup ... ) ( pp-lookup ... ) ntmp size main-index pp-index      (flattened)
+              ntmp = temp files anywhere in the tree; size = current_size (result store);
+              index = none | ( ( path size ) ... ) sorted by path, paths relative to the cache root
+   The entry stored by `put key pid plen elen` is elen bytes, all equal to pid (the real entry is elen
+   bytes determined by (pid, plen)); a lookup is ( hit pid ) when it returns exactly such an entry
+   declared for that key of that store. *)
 From Coq Require Import List NArith Bool.
 From Coq Require String.
 Import String.StringSyntax.
-From Sccache Require Import Base.Sx Model.Lru Model.DiskCache.
+From Sccache Require Import Base.Sx Model.Lru Model.DiskCache Model.DiskTree.
+From Sccache Require Model.RoCache.
 Import ListNotations.
 Local Open Scope N_scope.
 Local Open Scope string_scope.
 
-Definition path_of (k : list N) : key :=
-  match k with
-  | 46 :: _ => k
-  | _ => make_key_path k
-  end.
-
 Definition value (pid elen : N) : list N := repeat pid (N.to_nat elen).
 
-(* nchunks pieces: elen/nchunks bytes each, the remainder with the last *)
+(* nchunks pieces: total/nchunks bytes each, the remainder with the last *)
 Fixpoint split_chunks (v : list N) (q : nat) (n : nat) : list (list N) :=
   match n with
   | O => [v]
@@ -37,19 +41,26 @@ Definition chunks_of (pid elen nch : N) (fail : bool) : list (list N) :=
   let total := if fail then elen / 2 else elen in
   split_chunks (value pid total) (N.to_nat (total / nch)) (N.to_nat nch - 1).
 
-(* declared entries: (key, pid, elen) *)
+(* declared entries: (key, pid, elen), per store *)
 Definition decl := (list N * N * N)%type.
 
-Definition dec_init (x : sx) : list N * N * N * N :=
+Inductive ikind := IMain | IPp | IRaw.
+
+Definition dec_init (x : sx) : ikind * list N * N * N * N :=
   match x with
-  | SL [k; pid; _; elen; mt] => (get_B k, get_N pid, get_N elen, get_N mt)
-  | _ => ([], 0, 0, 0)
+  | SL [t; k; pid; _; elen; mt] =>
+      ((if is_sym "main" t then IMain else if is_sym "pp" t then IPp else IRaw),
+       get_B k, get_N pid, get_N elen, get_N mt)
+  | _ => (IRaw, [], 0, 0, 0)
   end.
 
-Definition mk_disk (init : list (list N * N * N * N)) : disk :=
+Definition init_path (kd : ikind) (k : list N) : key :=
+  match kd with IMain => make_key_path k | IPp => RoCache.pp_path k | IRaw => k end.
+
+Definition mk_disk (init : list (ikind * list N * N * N * N)) : disk :=
   fold_left (fun d e =>
-               let '(k, pid, elen, mt) := e in
-               let p := path_of k in
+               let '(kd, k, pid, elen, mt) := e in
+               let p := init_path kd k in
                {| d_files := ains p (elen, mt) (d_files d);
                   d_dir := (p, d_next_ino d) :: aremove p (d_dir d);
                   d_inodes := d_inodes d ++ [(d_next_ino d, value pid elen)];
@@ -60,31 +71,45 @@ Definition mk_disk (init : list (list N * N * N * N)) : disk :=
             {| d_files := []; d_dir := []; d_inodes := []; d_tmps := []; d_next_ino := 0;
                d_next_h := 0; d_clock := 1000 |}.
 
-Definition dec_thread (x : sx) : option (thread * option decl) :=
+(* thread, and what it declares: inl = result store, inr = nested store *)
+Definition dec_thread (x : sx) : option (tthread * option (decl + decl)) :=
   match x with
   | SL [t; k; pid; _; elen; nch; fl] =>
       if is_sym "put" t then
-        Some (TPut (make_key_path (get_B k)) (get_N elen)
-                   (chunks_of (get_N pid) (get_N elen) (get_N nch) (get_bool fl)) (get_bool fl),
-              Some (get_B k, get_N pid, get_N elen))
+        Some (TMain (TPut (make_key_path (get_B k)) (get_N elen)
+                          (chunks_of (get_N pid) (get_N elen) (get_N nch) (get_bool fl)) (get_bool fl)),
+              Some (inl (get_B k, get_N pid, get_N elen)))
       else None
-  | SL [t; k] => if is_sym "get" t then Some (TGet (make_key_path (get_B k)), None) else None
+  | SL [t; k; pid; _; elen; nch] =>
+      if is_sym "pp_put" t then
+        Some (TPpPut (RoCache.pp_path (get_B k)) (chunks_of (get_N pid) (get_N elen) (get_N nch) false),
+              Some (inr (get_B k, get_N pid, get_N elen)))
+      else None
+  | SL [t; k] =>
+      if is_sym "get" t then Some (TMain (TGet (make_key_path (get_B k))), None)
+      else if is_sym "pp_get" t then Some (TPpGet (RoCache.pp_path (get_B k)), None)
+      else None
   | _ => None
   end.
 
-Fixpoint dec_threads (l : list sx) : option (list thread * list decl) :=
+Fixpoint dec_threads (l : list sx) : option (list tthread * list decl * list decl) :=
   match l with
-  | [] => Some ([], [])
+  | [] => Some ([], [], [])
   | x :: r =>
       match dec_thread x, dec_threads r with
-      | Some (th, d), Some (ths, ds) =>
-          Some (th :: ths, match d with Some d => d :: ds | None => ds end)
+      | Some (th, d), Some (ths, ds, ps) =>
+          Some (th :: ths,
+                match d with Some (inl d) => d :: ds | _ => ds end,
+                match d with Some (inr d) => d :: ps | _ => ps end)
       | _, _ => None
       end
   end.
 
 Definition thread_key (x : sx) : list N :=
   match x with SL (_ :: k :: _) => get_B k | _ => [] end.
+
+Definition thread_is_pp (x : sx) : bool :=
+  match x with SL (t :: _) => is_sym "pp_put" t || is_sym "pp_get" t | _ => false end.
 
 Fixpoint ins_key (k : list N) (l : list (list N)) : list (list N) :=
   match l with
@@ -118,51 +143,77 @@ Definition enc_gres (ds : list decl) (k : list N) (r : gres) : sx :=
 Definition enc_pres (r : pres) : sx :=
   match r with POk => sym "ok" | PTooLarge => sym "too_large" | PErr => sym "err" end.
 
-(* key string of a path produced by make_key_path: drop "x/y/" *)
-Definition enc_thread (ds : list decl) (kx : list N) (th : thread) : sx :=
+Definition enc_thread (ds ps : list decl) (kx : list N) (th : tthread) : sx :=
   match th with
-  | TPutDone r => enc_pres r
-  | TGetDone _ r => enc_gres ds kx r
+  | TMain (TPutDone r) => enc_pres r
+  | TMain (TGetDone _ r) => enc_gres ds kx r
+  | TPpPutDone r => enc_pres r
+  | TPpGetDone _ r => enc_gres ps kx r
   | _ => sym "unfinished"
   end.
 
 (* a complete lookup through the live cache *)
-Definition lookup (s : dst) (p : key) : dst * gres :=
-  let '(s1, th1, _) := step_thread 0 s (TGet p) in
-  let '(s2, th2, _) := step_thread 0 s1 th1 in
-  (s2, match th2 with TGetDone _ r => r | _ => GErr end).
+Definition lookup (t : tst) (th : tthread) : tst * gres :=
+  let '(t1, th1, _) := tstep 0 t th in
+  let '(t2, th2, _) := tstep 0 t1 th1 in
+  (t2, match th2 with
+       | TMain (TGetDone _ r) => r
+       | TPpGetDone _ r => r
+       | _ => GErr
+       end).
 
-Fixpoint observe (ds : list decl) (s : dst) (ks : list (list N)) : dst * list sx :=
+Fixpoint observe (pp : bool) (ds : list decl) (t : tst) (ks : list (list N)) : tst * list sx :=
   match ks with
-  | [] => (s, [])
+  | [] => (t, [])
   | k :: r =>
-      let '(s1, g) := lookup s (make_key_path k) in
-      let '(s2, os) := observe ds s1 r in
-      (s2, enc_gres ds k g :: os)
+      let '(t1, g) := lookup t (if pp then TPpGet (RoCache.pp_path k) else TMain (TGet (make_key_path k))) in
+      let '(t2, os) := observe pp ds t1 r in
+      (t2, enc_gres ds k g :: os)
   end.
 
-Definition count_temp (fs : list (key * (N * N))) : nat :=
-  length (filter (fun e => is_temp (fst e)) fs).
+Fixpoint ins_entry (e : key * N) (l : list (key * N)) : list (key * N) :=
+  match l with
+  | [] => [e]
+  | e' :: r => if bytes_ltb (fst e) (fst e') then e :: l else e' :: ins_entry e r
+  end.
 
-Definition obs3 (ds : list decl) (s : dst) (ks : list (list N)) : dst * list sx :=
-  let '(s1, os) := observe ds s ks in
-  (s1, [SL os; snat (length (tmps s1) + count_temp (files (lru s1)));
-        if inited s1 then SN (size (lru s1)) else sym "none"]).
+Definition enc_index (on : bool) (idx : list (key * N)) : sx :=
+  if on then SL (map (fun e => SL [SB (fst e); SN (snd e)]) (fold_right ins_entry [] idx))
+  else sym "none".
+
+Definition obs6 (order : bool) (ds ps : list decl) (t : tst) (mk pk : list (list N)) : tst * list sx :=
+  let '(t2, om, op) :=
+    if order then
+      let '(t1, op) := observe true ps t pk in
+      let '(t2, om) := observe false ds t1 mk in (t2, om, op)
+    else
+      let '(t1, om) := observe false ds t mk in
+      let '(t2, op) := observe true ps t1 pk in (t2, om, op) in
+  (t2, [SL om; SL op; snat (temp_count t2);
+        if inited (base t2) then SN (size (lru (base t2))) else sym "none";
+        enc_index (inited (base t2)) (index (lru (base t2)));
+        enc_index (pp_inited t2) (index (pps t2))]).
 
 Definition run_c06 (x : sx) : sx :=
   match x with
-  | SL [c; SL init; SL ths; SL sched] =>
+  | SL [c; ord; SL init; SL ths; SL sched] =>
       match dec_threads ths with
-      | Some (threads, tds) =>
+      | Some (threads, tds, tps) =>
           let ini := map dec_init init in
-          let ds := map (fun e => let '(k, pid, elen, _) := e in (k, pid, elen)) ini ++ tds in
-          let ks := fold_right ins_key []
-                      (filter (fun k => match k with 46 :: _ => false | _ => true end) (map (fun e => fst (fst (fst e))) ini)
-                       ++ map thread_key ths) in
-          let w := exec (start (get_N c) (mk_disk ini) threads) (map (fun t => N.to_nat (get_N t)) sched) in
-          let rs := map (fun p => enc_thread ds (thread_key (fst p)) (snd p)) (combine ths (wt w)) in
-          let '(s1, o1) := obs3 ds (ws w) ks in
-          let '(_, o2) := obs3 ds (boot (get_N c) (persist s1)) ks in
+          let dsel := fun kd => map (fun e => let '(_, k, pid, elen, _) := e in (k, pid, elen))
+                                    (filter (fun e => match fst (fst (fst (fst e))), kd with
+                                                      | IMain, IMain | IPp, IPp => true | _, _ => false end) ini) in
+          let ds := dsel IMain ++ tds in
+          let ps := dsel IPp ++ tps in
+          let mk := fold_right ins_key []
+                      (map (fun d => fst (fst d)) (dsel IMain)
+                       ++ map thread_key (filter (fun x => negb (thread_is_pp x)) ths)) in
+          let pk := fold_right ins_key []
+                      (map (fun d => fst (fst d)) (dsel IPp) ++ map thread_key (filter thread_is_pp ths)) in
+          let w := texec (tstart (get_N c) (mk_disk ini) threads) (map (fun t => N.to_nat (get_N t)) sched) in
+          let rs := map (fun p => enc_thread ds ps (thread_key (fst p)) (snd p)) (combine ths (twt w)) in
+          let '(s1, o1) := obs6 (get_bool ord) ds ps (tws w) mk pk in
+          let '(_, o2) := obs6 (get_bool ord) ds ps (trestart (get_N c) s1) mk pk in
           SL (SL rs :: o1 ++ o2)
       | None => err "bad thread"
       end
